@@ -174,7 +174,7 @@ def build_lib(variant, atomic="c11", rwlock="posix", extra_flags=(), exclude=(),
 
 def cflags_for(variant, extra=()):
     c = config()
-    return VARIANT_FLAGS[variant] + list(extra) + c["defines"] + ["-D" + GUARD] + ["-I" + i for i in c["incs"]] + ["-I" + ENGINE, "-I" + os.path.join(VERIF, "ref")]
+    return VARIANT_FLAGS[variant] + c["defines"] + ["-D" + GUARD] + ["-I" + i for i in c["incs"]] + ["-I" + ENGINE, "-I" + os.path.join(VERIF, "ref")] + list(extra)      # extra last: a -U there overrides a configured -D
 
 
 MCRT_SOURCES = ["engine/mcrt_core.c", "engine/mcrt_mon.c", "engine/mcrt_pthread.c", "engine/mcrt_mem.c", "engine/mcrt_sym.c"]
